@@ -110,6 +110,31 @@ func bookReportsReplay(e *env) error {
 			x.bad("resolver-status", "resolver/resolver.go", fmt.Sprintf("%v returns %v, specification predicts %s", args, res.Err, c.Status))
 			return nil
 		}
+		// every command that resolves the book must honour the same limit (C11): same outcome as the specification's
+		if e.argInt("allcmds", 0) == 1 {
+			anyEl := "leaf"
+			for _, r := range c.Book {
+				for _, in := range r.Ingr {
+					anyEl = names[in[0]]
+				}
+			}
+			if anyEl == "h" || anyEl == "help" {
+				anyEl = "leaf"
+			}
+			lg := "2021/01/01:\n  some food: 1\n"
+			for _, cmd := range [][]string{{"--no-color", "reg"}, {"bal"}, {"bal", "-s", anyEl}, {"--no-color", "summary", "2021/01/01"}, {"report", "totals"},
+				{"report", "unresolved"}, {"report", "element-total", anyEl}, {"reg", "-s", anyEl}, {"reg", "-s", anyEl, "-g"}} {
+				a := append([]string{"--maxdepth", fmt.Sprint(c.N)}, cmd...)
+				o := &failWriter{limit: -1}
+				r := runInProc(a, map[string]fileSrc{"food.yaml": strSrc(x.book), "log.yaml": strSrc(lg)}, o)
+				e.count(0, 1, 0)
+				if r.Panicked != nil || r.TimedOut {
+					x.bad("cli-panic", "cmd/hranoprovod-cli", fmt.Sprintf("%v panics: %v", a, r.Panicked))
+				} else if (r.Err == nil) != (c.Status == "ok") || (r.Err != nil && !isDepthErr(r.Err)) {
+					x.bad("resolver-status", "resolver/resolver.go", fmt.Sprintf("%v returns %v, specification predicts %s for this book at limit %d", a, r.Err, c.Status, c.N))
+				}
+			}
+		}
 		if c.Status != "ok" {
 			return nil
 		}
